@@ -83,8 +83,16 @@ def check_attrs(ctx, c, model):
     ctx.count(f"attrs.malformed={c['mal']}")
     # explicit flags win over the global options in force (seeded change C03-11: `flag or option`)
     glob = c.get("global") or {}
+    # default flags by omission, outside any option block: what an earlier block set must not linger (seeded change
+    # C03-14: get_options() handed out the live dict, so no block ever restored anything)
+    omit = not glob and c["rc"] is False and c["rn"] is True and c["id"] % 2 == 0
     try:
-      with numpoly.global_options(**glob):
+      if omit:
+        ctx.count("attrs.flags-omitted")
+        p = numpoly.polynomial_from_attributes(numpy.array(c["expos"], dtype=int).reshape(len(c["expos"]), -1), cols, names,
+                                               **({"allocation": c["allocation"]} if c.get("allocation") is not None else {}))
+      else:
+       with numpoly.global_options(**glob):
         p = numpoly.polynomial_from_attributes(numpy.array(c["expos"], dtype=int).reshape(len(c["expos"]), -1), cols, names,
                                                retain_coefficients=c["rc"], retain_names=c["rn"],
                                                **({"allocation": c["allocation"]} if c.get("allocation") is not None else {}))
